@@ -113,10 +113,16 @@ func rwTrace(tracePath string) []map[string]any {
 		return map[string]any{"ev": ev, "start": false, "result": "", "state": 0, "for_release": false, "release": false, "force": false, "op": ""}
 	}
 	out := []map[string]any{blank("reset")}
-	uid := ""
+	uid, xid, idStored := "", "", false
 	for _, e := range traceEvents(tracePath) {
 		ev := e.Str("ev")
 		switch {
+		case ev == "sf_write" && uid != "" && xid != "" && !idStored:
+			// the first rewrite of the unit's record that carries the id E answered with
+			if strings.Contains(e.Str("file"), "/"+uid+"/status") && strings.Contains(e.Str("rec"), `"RemoteUnitID":"`+xid+`"`) {
+				idStored = true
+				out = append(out, blank("id_stored"))
+			}
 		case ev == "env_kill" || ev == "env_restart":
 			out = append(out, blank(ev))
 		case strings.HasPrefix(ev, "rw_"):
@@ -125,6 +131,9 @@ func rwTrace(tracePath string) []map[string]any {
 			}
 			if e.Str("id") != uid || ev == "rw_out_req" || ev == "rw_out_copied" {
 				continue
+			}
+			if ev == "rw_submitted" {
+				xid = e.Str("remote_id")
 			}
 			r := blank(ev)
 			r["start"], r["result"], r["state"] = e.Bool("start"), e.Str("result"), e.Int("state")
